@@ -278,8 +278,55 @@ def masks_hidden(facts, rep):
                        "every pseudo-random term masking this message (%s) is computable by its receiver (party %s): the mask "
                        "can be removed and the receiver sees the unmasked value" % ([m[0] for m in masks], [recv[i] for i in bad]),
                        b.loc(nb))
+    n += masks_hidden_roles(facts, rep)
     rep.analysed["send_sites_with_resolved_masks"] = n
     rep.floor("C03.H", "Send sites whose masks are all resolved", n, 1)
+
+
+def masks_hidden_roles(facts, rep):
+    """C03.H for protocols parameterised by roles (ObliviousTransfer): the holders of each PRF term are derived by the
+    ownership typing (E7) under every assignment of parties to the roles; the receiver must not be among the holders of at
+    least one mask"""
+    from ..knowledge import Knowledge
+    n = 0
+    for name, spec in sorted(C02.ROLE_PROTOCOLS.items()):
+        b = facts.body(name)
+        if not rep.anchor("C03.H", name, b):
+            continue
+        verdicts = {}
+        for s_ in range(3):
+            for r_ in range(3):
+                if s_ == r_:
+                    continue
+                who = {"S": s_, "R": r_, "H": 3 - s_ - r_}
+                kn = Knowledge(facts, b, env={spec["roles"][0]: s_, spec["roles"][1]: r_},
+                               input_holders={k: frozenset(who[c] for c in v) for k, v in spec["inputs"].items()})
+                for k, (nb, (snd, rcv)) in enumerate(sorted(kn.sends.items())):
+                    pay = kn.node_args(b.term(nb))
+                    if rcv is None or not pay:
+                        continue
+                    masks = []
+                    for ib in sorted(C02._additive_cone(b, kn.fl, pay[-1], (nb, None))):
+                        cn = callee_name(b.term(ib)) or ""
+                        if cn in PRFS:
+                            K, exact = kn.of_call(ib)
+                            masks.append((sorted(K), rcv in K) if exact is True else None)
+                        elif cn in MASK or cn in PERM:
+                            masks.append(None)
+                    if masks and all(m is not None for m in masks):
+                        verdicts.setdefault((k, nb), []).append(((s_, r_), rcv, masks))
+        short = name.split(" as ")[0].split("::")[-1]
+        for (k, nb), vs in sorted(verdicts.items()):
+            if len(vs) != 6:
+                continue
+            n += 1
+            bad = [v for v in vs if all(m[1] for m in v[2])]
+            rep.ob("C03.H", "%s|roles|send#%d" % (short, k), not bad,
+                   "under all 6 role assignments the receiver holds the key of none / not all of the masks (e.g. %s: receiver %s, "
+                   "mask holders %s)" % (vs[0][0], vs[0][1], [m[0] for m in vs[0][2]]) if not bad else
+                   "for (sender, receiver) = %s the receiver (party %s) can recompute every mask of this message (holders %s)"
+                   % (bad[0][0], bad[0][1], [m[0] for m in bad[0][2]]), b.loc(nb))
+    return n
 
 
 def planner_products(facts, rep):
